@@ -879,6 +879,9 @@ func (e *Exec) mapGet(m *omap, k value) (value, bool) {
 	if m == nil {
 		return nil, false
 	}
+	if e.race.on {
+		e.raceRecord(m, false, false, "map read")
+	}
 	for _, en := range m.e {
 		if e.valuesEqual(en.k, k) {
 			return en.v, true
@@ -888,6 +891,9 @@ func (e *Exec) mapGet(m *omap, k value) (value, bool) {
 }
 
 func (e *Exec) mapSet(m *omap, k, v value) {
+	if e.race.on {
+		e.raceRecord(m, true, false, "map write")
+	}
 	for i := range m.e {
 		if e.valuesEqual(m.e[i].k, k) {
 			m.e[i].v = v
@@ -900,6 +906,9 @@ func (e *Exec) mapSet(m *omap, k, v value) {
 func (e *Exec) mapDelete(m *omap, k value) {
 	if m == nil {
 		return
+	}
+	if e.race.on {
+		e.raceRecord(m, true, false, "map delete")
 	}
 	for i := range m.e {
 		if e.valuesEqual(m.e[i].k, k) {
